@@ -1,6 +1,7 @@
 #!/bin/bash
 # tools/reseed.sh [seed-ids...] : re-apply every confirmed seeded change to a fresh scratch worktree of /repo and require
-# the property's quick check to report it (exit 1).  Prints one line per seed; exit 1 if any seed is no longer caught.
+# the property's quick check to report it (exit 1) at every workload seed in $RESEED_SEEDS (default "0 5": a catch that
+# depends on the draw is not a catch).  Prints one line per seed; exit 1 if any seeded change is no longer caught.
 cd /verif
 IDS="$@"; [ -z "$IDS" ] && IDS=$(ls seeded)
 BAD=0
@@ -11,9 +12,11 @@ for s in $IDS; do
   git -C /repo worktree add -q --detach $W/w HEAD >/dev/null 2>&1
   if ! git -C $W/w apply /verif/seeded/$s/patch.diff 2>/dev/null; then echo "$s $P PATCH-DOES-NOT-APPLY"; BAD=1
   else
-    OUT=$(VERIF_REPO=$W/w /venv/bin/python vf/run.py $P --tier quick 2>&1); RC=$?
-    K=$(echo "$OUT" | grep "key=" | sed 's/.*key=\([^ ]*\).*/\1/' | sort -u | head -2 | tr '\n' ' ')
-    if [ $RC -eq 1 ]; then echo "$s $P caught $K"; else echo "$s $P NOT-CAUGHT rc=$RC"; BAD=1; fi
+    for SD in ${RESEED_SEEDS:-0 5}; do
+      OUT=$(VERIF_SEED=$SD VERIF_FAILFAST=1 VERIF_REPO=$W/w /venv/bin/python vf/run.py $P --tier quick 2>&1); RC=$?
+      K=$(echo "$OUT" | grep "key=" | sed 's/.*key=\([^ ]*\).*/\1/' | sort -u | head -2 | tr '\n' ' ')
+      if [ $RC -eq 1 ]; then echo "$s $P seed=$SD caught $K"; else echo "$s $P seed=$SD NOT-CAUGHT rc=$RC"; BAD=1; fi
+    done
   fi
   git -C /repo worktree remove --force $W/w >/dev/null 2>&1; rm -rf $W
 done
